@@ -55,13 +55,6 @@ func (x *c20SX) callClosure(f c20V, call *ast.CallExpr, args []c20V, st *c20St) 
 	if !ok {
 		return c20One(st, c20Unknown("function literal without signature"))
 	}
-	if lit.Type.Results != nil {
-		for _, fl := range lit.Type.Results.List {
-			if len(fl.Names) > 0 {
-				return c20One(st.abort(call, "function literal with named results (not among the understood shapes)"), c20V{})
-			}
-		}
-	}
 	i := 0
 	np := sig.Params().Len()
 	for _, fl := range lit.Type.Params.List {
@@ -70,9 +63,9 @@ func (x *c20SX) callClosure(f c20V, call *ast.CallExpr, args []c20V, st *c20St) 
 			var v c20V
 			switch {
 			case sig.Variadic() && i == np-1 && !(call.Ellipsis.IsValid() && i < len(args)):
-				v = c20Unknown("variadic arguments of a function literal given one by one")
-				if len(args) == np-1 {
-					v = c20V{k: c20kNil}
+				v = c20Unknown("missing arguments of a function literal")
+				if len(args) >= np-1 && p != nil {
+					v = x.variadicArg(p.Type(), args[np-1:])
 				}
 			case i < len(args):
 				v = args[i]
@@ -88,6 +81,7 @@ func (x *c20SX) callClosure(f c20V, call *ast.CallExpr, args []c20V, st *c20St) 
 	}
 	x.lits = append(x.lits, lit)
 	x.frames = append(x.frames, c20Frame{sig: sig, lo: lit.Pos(), hi: lit.End()})
+	x.enter(st)
 	outs := x.block(lit.Body.List, []*c20St{st})
 	x.frames = x.frames[:len(x.frames)-1]
 	x.lits = x.lits[:len(x.lits)-1]
